@@ -18,6 +18,9 @@ pub struct PathSnap {
     pub challenge: bool,
     pub challenge_pending: bool,
     pub rtt_pto_base: Duration,
+    /// smoothed RTT (the initial RTT before the first sample) and RTT variance of the path's estimator
+    pub rtt_smoothed: Duration,
+    pub rtt_var: Duration,
 }
 
 /// Per packet-number-space projection
@@ -103,6 +106,8 @@ fn path_snap(p: &PathData) -> PathSnap {
         challenge: p.challenge.is_some(),
         challenge_pending: p.challenge_pending,
         rtt_pto_base: p.rtt.pto_base(),
+        rtt_smoothed: p.rtt.verif_rtt_var().0,
+        rtt_var: p.rtt.verif_rtt_var().1,
     }
 }
 
